@@ -39,7 +39,7 @@ REPORTS_OBS = ["r:wyear:orig", "r:wyear:x3", "r:wyear:shuffled", "r:wyear:partna
 
 SCENARIOS = {
     # name: template, baselines, reports, slots, ignore flags
-    "gate": dict(template="T_gate", base=["b:good", "b:short", "b:poor"], reports=REPORTS_GATE, slots=["s1", "s2"], ign=[True, False]),
+    "gate": dict(template="T_gate", base=["b:good", "b:short", "b:poor", "b:netpoor"], reports=REPORTS_GATE, slots=["s1", "s2"], ign=[True, False]),
     "gate2": dict(template="T_gate", base=["b:gaps", "b:east", "b:poor"], reports=REPORTS_GATE, slots=["s1", "s2"], ign=[True, False]),
     "refit": dict(template="T_refit", base=["b:good", "b:short", "b:poor"], reports=["r:wmonth:orig", "r:weast:orig"], slots=["s1"], ign=[True, False]),
     "store": dict(template="T_store", base=["b:good", "b:poor", "b:short"], reports=["r:wyear:orig", "r:wweek:orig", "r:wpart:absent"], slots=["s1", "s2"], ign=[True]),
@@ -175,11 +175,14 @@ def features(h):
     f = set()
     fitted = {}
     lastp = None
+    scribbled = None    # data whose returned prediction frame the caller has overwritten
     docs = []           # baseline behind every stored document
     loads = []          # (slot, baseline of the document) in load order
     for a in h:
         op = a["op"]
         f.add(("op", op))
+        if op == "scribble":
+            scribbled = lastp
         if op == "save":
             docs.append(fitted.get(a["s"], "-"))
         elif op == "restart":
@@ -197,6 +200,10 @@ def features(h):
             f.add(("fit", a["d"], a["ign"]))
         elif op == "predict":
             f.add(("predict", fitted.get(a["s"], "-"), a["d"]))
+            if a["d"] == fitted.get(a["s"]):
+                f.add(("predict-on-the-fitted-baseline-object", a["d"]))
+            if scribbled is not None and scribbled == a["d"]:
+                f.add(("same-data-predicted-again-after-the-returned-frame-was-overwritten", a["d"][:2], a["d"] == fitted.get(a["s"])))
             if lastp is not None:
                 f.add(("seq", lastp, a["d"]))
             lastp = a["d"]
@@ -205,6 +212,11 @@ def features(h):
         elif op == "load":
             fitted[a["s"]] = "loaded"
     return f
+
+
+# features that only a particular sequence of calls exercises: they outweigh the many (baseline x report) pair features
+RARE = {"same-data-predicted-again-after-the-returned-frame-was-overwritten", "used-after-another-model-was-restored", "predict-on-the-fitted-baseline-object"}
+RARE_WEIGHT = 25
 
 
 def pick_cover(hists, n, r):
@@ -222,7 +234,7 @@ def pick_cover(hists, n, r):
         for k, f in enumerate(feats):
             if k in used:
                 continue
-            g = len(f - covered)
+            g = sum(RARE_WEIGHT if x[0] in RARE else 1 for x in f - covered)
             if g > gain:
                 best, gain = k, g
         used.add(best)
